@@ -129,3 +129,48 @@ pub fn replay_step(xs: &[Sx]) -> Option<String> {
     let mut iset = make_iset(false);
     Some(observe_step(&mut iset, st).0)
 }
+
+/// C08: CODE instructions on tree-rich states; the second / third CODE items are often points of the top one
+pub fn run_codeops(seed: u64, tier: &str, filter: &str, out: &mut dyn FnMut(String)) {
+    use crate::gen::gen_item;
+    use pushr::push::item::Item;
+    let names = instruction_names();
+    let n = if tier == "thorough" { 3000 } else { 400 };
+    let mut iset = make_iset(false);
+    let inert: Vec<String> = vec!["NOOP".to_string(), "INTEGER.+".to_string(), "CODE.DUP".to_string()];
+    for name in names.iter().filter(|n| matches(n, filter)) {
+        for case in 0..n {
+            let mut r = Rng::for_case(seed, &format!("codeops:{}", name), case);
+            let rich = r.chance(1, 2);
+            let mut st = gen_state(&mut r, &GenOpts { instrs: &inert, rich, item_depth: 2 });
+            st.code_stack.flush();
+            let depth = 1 + r.below(4) as u32;
+            let top = if r.chance(1, 8) { crate::gen::gen_atom(&mut r, &inert) } else { gen_item(&mut r, depth, &inert) };
+            let size = Item::size(&top) as i64;
+            let sub = |r: &mut Rng, t: &Item| -> Item {
+                let k = r.below(Item::size(t) as u64) as usize;
+                Item::traverse(t, k).unwrap_or(Item::int(0))
+            };
+            let ncode = r.below(4);
+            if ncode >= 3 {
+                let third = if r.chance(1, 2) { sub(&mut r, &top) } else { gen_item(&mut r, 1, &inert) };
+                st.code_stack.push(third);
+            }
+            if ncode >= 2 {
+                let second = if r.chance(3, 5) { sub(&mut r, &top) } else { gen_item(&mut r, 2, &inert) };
+                st.code_stack.push(second);
+            }
+            if ncode >= 1 {
+                st.code_stack.push(top);
+            }
+            if r.chance(9, 10) {
+                let i = match r.below(6) {
+                    0 => *r.pick(&[i32::MIN, i32::MAX, -1, 0]),
+                    _ => r.range(-2 * size, 2 * size) as i32,
+                };
+                st.int_stack.push(i);
+            }
+            out(observe_exec(&mut iset, name, st));
+        }
+    }
+}
